@@ -174,7 +174,7 @@ def e2_checks(pid, tier, seed):
             inp[L - 1] = 'S'; inp[L - 2] = 'S'
             out.append(spec('encode_long_%d' % L, 'chk_roundtrip_long', inp, 'payload of %d bytes with the last two symbolic: both encoders vs the reference encoder (8-bit pad counter wrap)' % L, must_cover=[1]))
     elif pid == 'C16':
-        for L in (range(0, 5) if q else range(0, 7)):
+        for L in (range(0, 5) if q else range(0, 6)):
             out.append(spec('capacity_%d' % L, 'chk_capacity_%d' % L, S(L), 'payload of %d symbolic bytes: capacity %d delivers, capacity %d reports one OutOfMemory and delivers the next frame' % (L, L, max(L - 1, 0)), must_cover=[16] if L else []))
         for L in ((8192, 8193)):
             inp = [0x42] * L
@@ -257,6 +257,17 @@ def _parser_checks(pid, tier, seed):
                 out += file_specs('chk_mut_' + g, g, tier, seed, [0], names=SMALL_FILES + VALUE_FILES[:2], nsym=12)
         else:
             out += file_specs('chk_mut_c03', 'c03', tier, seed, [0], names=None, nsym=(14 if q else 28))
+            # the same files against the GENERATOR's own expected-content trace (oracle independent of the reference reader)
+            import random
+            g_ = _lib(); rnd = random.Random(seed + 1)
+            for name, b in g_.library().items():
+                h = g_.header_with_trace(b)
+                cells = list(b.b)
+                cont = list(b.content)
+                nsym = 14 if q else 28
+                pick = cont if len(cont) <= nsym else sorted(rnd.sample(cont, nsym))
+                for o in pick: cells[o] = 'S'
+                out.append(spec('c03_gen_%s' % name, 'chk_gen_c03', h + cells, 'file %s (%d bytes): %d content bytes symbolic, checksums recomputed; both parsers vs the generator\'s expected-content trace' % (name, len(cells), len(pick)), must_cover=[31]))
         if pid == 'C06':
             out.append(spec('c06_noalloc_sym', 'chk_stream_noalloc', S(8 if q else 11), 'streaming parser on fully symbolic bytes: no heap request, terminates'))
             out += len_attack_specs(tier)
@@ -282,17 +293,18 @@ def len_attack_specs(tier):
         # 9-byte TLF with concrete structure bits and a fully symbolic 36-bit length: every declared length up to and beyond 2^32-1
         return [('nib', first_hi)] + [('nib', 0x8)] * 7 + [('nib', 0x0)]
     for pos in tl_positions:
-        ns = (1, 2, 3, 5, 9) if not q else (2, 4)
+        ns = (1, 2, 3, 5) if not q else (2, 4)
         for n in ns:
             cells = fb[:pos] + S(n) + fb[pos + 1:]
             out.append(spec('c06_len_p%d_n%d' % (pos, n), 'chk_parse_c06', cells, 'get-list file with the type-length byte at offset %d replaced by %d symbolic bytes' % (pos, n), max_seconds=900 if q else 3000))
-    for pos in sorted(key):
+    for pos in (sorted(key) if q else tl_positions):
         hi = 0x8 | (fb[pos] >> 4)
         cells = fb[:pos] + nib9(hi) + fb[pos + 1:]
         out.append(spec('c06_len36_p%d' % pos, 'chk_parse_c06', cells, 'TL byte at offset %d replaced by a 9-byte TLF of the same type whose 36 length bits are symbolic (all declared lengths 0 .. 2^36-1)' % pos, max_seconds=900))
         out.append(spec('c06_noalloc_len36_p%d' % pos, 'chk_stream_noalloc', cells, 'streaming parser, same 9-byte TLF with 36 symbolic length bits at offset %d' % pos, max_seconds=900))
     if not q:
-        for pos in tl_positions:
+        for pos in tl_positions[1:2]:
             cells = fb[:pos] + S(9) + fb[pos + 1:]
-            out.append(spec('c06_noalloc_len_p%d' % pos, 'chk_stream_noalloc', cells, 'streaming parser, TL byte at offset %d replaced by 9 symbolic bytes' % pos, max_seconds=3000))
+            out.append(spec('c06_len_p%d_n9' % pos, 'chk_parse_c06', cells, 'TL byte at offset %d replaced by 9 fully symbolic bytes' % pos, max_seconds=3000))
+            out.append(spec('c06_noalloc_len_p%d' % pos, 'chk_stream_noalloc', cells, 'streaming parser, TL byte at offset %d replaced by 9 fully symbolic bytes' % pos, max_seconds=3000))
     return out
